@@ -29,6 +29,8 @@ DECIDED = [
     "RESET-1 (shared with C19) a Validation object that is run again starts from an empty issue list: the warnings reported are those of the current state",
     "ORD-3 both parse_cardinality functions invert the writers' rendering for every normal-form pair",
     "TAB-5 cardinalities are format keys, readable attributes and constructor keywords",
+    'ENF-2 the Section re-validation helpers print an issue only on paths that know it belongs to the Section itself',
+    'LOOP-1 (imported from C02 and C01) no reader container survives from one sibling element to the next: a cardinality is read from the element it belongs to',
 ]
 NOT_DECIDED = ["that len() of the live child list is the child count meant by the statement"]
 
